@@ -25,7 +25,7 @@ RULE = (
 )
 ASSUMPTIONS = [
     "declared = reference pre-order of C06 for the same filter_/stop/maxlevel; expected edge lines = indent + id(parent) + edgefunc + id(child) for every parent-child pair with both ends declared, compared as a multiset",
-    "default identifiers are read off the node lines (the i-th node line belongs to the i-th declared node) and must match N<digits>",
+    "default identifiers are read off the node lines (the i-th node line belongs to the i-th declared node) and must be plain identifier tokens",
 ]
 
 
@@ -97,7 +97,7 @@ def _once(case, acc, tree, labels):
             if nodename:
                 if nid != nodename(node):
                     raise Violation("node-identifier", "%s: identifier %r expected %r" % (where, nid, nodename(node)))
-            elif not re.fullmatch(r"N\d+", nid):
+            elif not re.fullmatch(r"[A-Za-z_][A-Za-z0-9_]*", nid):  # the statement only asks for distinct, stable identifiers
                 raise Violation("node-identifier", "%s: default identifier %r in %r" % (where, nid, line))
             if id(node) in known_ident and known_ident[id(node)] != nid:
                 raise Violation("identifier-stability", "%s: node %r was %s in an earlier iteration of the same exporter and is %s now" % (where, node.name, known_ident[id(node)], nid))
